@@ -1,6 +1,7 @@
 (* Model driver: reads case lines "<channel> key=value ..." and prints one result line per
    case: "<id> key=value ...".  Each channel is served by extracted model functions. *)
 let channels : (string * ((string * string) list -> string)) list = [
+  ("acc", Chan_acc.run);
   ("art", Chan_art.run);
   ("clistep", Chan_art.run_step);
   ("flags", Chan_flags.run_flags);
